@@ -418,14 +418,16 @@ MANIFEST_TEXT = {
         technique="Coq proof (induction over spelled assignments and file segments against a state-machine model) on a hand-written Gallina model + differential correspondence check"),
     "C09": dict(
         level_text="Proof: (1) for every input byte string and every operator/function table the byte-level model of the parser and of the "
-                   "evaluation of the tree it builds never reaches a Go panic (no unchecked pop, no missing operator applied); (2) at token "
+                   "evaluation of the tree it builds never reaches a Go panic (no unchecked pop, no missing operator applied) and, when no operator "
+                   "symbol is empty (the standard table), never exhausts the fuel of any loop: the scan position strictly increases within "
+                   "the input and every reduction pops an operator, i.e. Evaluate terminates on every input; (2) at token "
                    "level, for every well-formed expression the two-stack reduction yields exactly the conventional tree: precedence, left "
                    "associativity, a unary operator binding its operand only -- Coq theorems. The byte-level model is compared with the real "
                    "evaluator (symbolic operators, so the value is the parse tree) on printed ASTs and arbitrary strings; values of the real "
                    "fixed/float evaluators are compared with a reference evaluation using the library's own operators; whitespace, reuse "
                    "and divide-by-zero modes are sampled.",
-        level_note="Trusted: Coq kernel, extraction, drivers, harness; bounded time is observed by the harness watchdog (fuel-unreachability "
-                   "not proved); the byte-to-token simulation is not proved (tied by K); float/fixed operator arithmetic is the library's.",
+        level_note="Trusted: Coq kernel, extraction, drivers, harness; termination is proved for the model (the harness watchdog observes "
+                   "the real code); the byte-to-token simulation is not proved (tied by K); float/fixed operator arithmetic is the library's.",
         technique="Coq proof (invariant over the parser's state machine; token-level refinement) on a hand-written Gallina model + differential correspondence check"),
     "C04": dict(
         level_text="Proof: for every configuration (1..16 places) and every value of f64.Int (int64 with wrap-around) and f128.Int (big.Int "
